@@ -53,7 +53,10 @@ def check_plain(acc, spec, routines=ROUTINES, scheme='s', logging=False, morph=F
     acc.states += 1
     if nontrivial(A):
         acc.nontrivial += 1
-        acc.sample({'dfa': spaces.dfa_parts(spec, scheme, letters)[2] and {'Q': A.Q, 'delta': {'{},{}'.format(q, a): sorted(r)[0] for (q, a), r in A.delta.items()}, 'q0': A.q0, 'F': sorted(A.F)}, 'nerode_classes_all_states': fa.n_classes(A, A.Q)})
+        if spec[2] >= 1:            # written-out cases with at least one letter (the Sigma = {} automata are in the space, but say little as samples)
+            Qs, Sg, dl, q0s, Fs = spaces.dfa_parts(spec, scheme, letters)
+            acc.sample({'dfa': {'Q': list(Qs), 'Sigma': list(Sg), 'delta': ['{},{}->{}'.format(q, a, r) for (q, a), r in dl.items()], 'q0': q0s, 'F': list(Fs)},
+                        'routines': list(routines), 'nerode_classes_all_states': fa.n_classes(A, A.Q), 'nerode_classes_reachable': fa.n_classes(A, fa.reachable(A))})
     for name in routines:
         inst = {'dfa': spec, 'scheme': scheme, 'routine': name, 'schedule': 'CPython order, seed 0', 'logging': logging}
         if morph:
